@@ -48,7 +48,7 @@ fn diff_leaves(a: &Sx, b: &Sx, out: &mut Vec<(Sx, Sx)>) -> bool {
 }
 
 pub fn run(ctx: &Ctx, rep: &mut Report) {
-    let n = ctx.pick(1000, 2_000_000);
+    let n = ctx.pick(1000, 8_000_000);
     par_cases(ctx, "history", n, rep, |i, rep| {
         let mut r = Rng::for_case(ctx.seed, "history", i);
         let case = format!("history:{}", i);
